@@ -90,6 +90,9 @@ def pipeline(ctx, want):
     # witnesses of rare corners (TLC counterexamples of negated reachability goals, see tools/mkwitness.py)
     wd = os.path.join(ctx.verif, "spec", "witness")
     for fn in sorted(os.listdir(wd)):
+        if fn.startswith("trackercover_") and fn.endswith(".json"):
+            for w in json.load(open(os.path.join(wd, fn))):
+                scripts.append(w["script"])
         if fn.startswith("tracker_") and fn.endswith(".json"):
             w = json.load(open(os.path.join(wd, fn)))
             sc = to_script(w["behaviour"], "w-" + w["goal"], w["K"], w["Q"], w["cids"])
